@@ -459,3 +459,8 @@ def time_limit(sec):
         signal.signal(signal.SIGALRM, old)
         if left:
             signal.setitimer(signal.ITIMER_REAL, max(0.01, left - (time.time() - t0)))
+
+
+def canon_dict(d):
+    """order-free form of a caller dictionary in JSON form (inner values: target or label list)"""
+    return sorted(((repr(v), sorted((repr(a), repr(sorted(b)) if isinstance(b, list) else repr(b)) for a, b in row)) for v, row in d))
